@@ -1,6 +1,9 @@
 -------------------------- MODULE Trace_FaultStore --------------------------
 (* Judge one injected run of a real accessor operation (C18).               *)
-(* case: [mode ("none"|"fail"|"crash"|"torn"), fired, optype ("store"|      *)
+(* mode "short": the k-th write stores only the first half of its data (a   *)
+(* POSIX short write: full disk, file size limit); a buffered file object   *)
+(* then fails on the remainder (error raised), a raw one reports the count. *)
+(* case: [mode ("none"|"fail"|"short"|"crash"|"torn"), fired, optype ("store"|      *)
 (*        "fetch"|"exists"), outcome: [st ("returned"|"raised"|"crashed"),  *)
 (*        osErr, dataAccess], ret: [has, data], expRet,                     *)
 (*        targets: Seq([st, data, new, hasold, old]),                       *)
@@ -29,7 +32,7 @@ Clause(c) ==
         ELSE IF c.optype # "store" /\ c.ret.data # c.expRet THEN "oracle:FaultFreeBroken"
         ELSE IF ~OthersIntact(c) THEN "oracle:OthersChanged"
         ELSE "ok")
-  ELSE IF c.mode = "fail"
+  ELSE IF c.mode \in {"fail", "short"}
   THEN (IF c.outcome.st = "raised" /\ ~(c.outcome.osErr \/ c.outcome.dataAccess)
            THEN "oracle:UnrelatedException"
         ELSE IF c.outcome.st = "returned" /\ c.optype = "store" /\ ~TargetsCorrect(c)
